@@ -164,7 +164,7 @@ class P(Prop):
         n = max(n, 2)
         loads = [[Fraction(rng.randint(0, 64), 64) * N * r * f / nswb for _ in range(n)] for _s in range(nswb)]
         return {"stream": "equal_sim", "plant": {"comps": comps, "breakers": [[1, 2]] if nswb == 2 else [], "swbs": list(range(1, nswb + 1))},
-                "per": per, "r": r, "f": f, "loads": loads}
+                "per": per, "r": r, "f": f, "loads": loads, "tie_left_open": rng.random() < 0.4}
 
     def gen_sim(self, rng):
         """run_simulation with the load-table interface: two switchboards, one load each; the load of one switchboard may be
@@ -180,7 +180,8 @@ class P(Prop):
         const = Fraction(rng.randint(0, 24), 64) * total * f
         series = [Fraction(rng.randint(0, 64), 64) * total * f for _ in range(n)]
         return {"stream": "sim", "plant": {"comps": comps, "breakers": [[1, 2]], "swbs": [1, 2]}, "f": f, "series": series, "const": const,
-                "const_as": rng.choice(["single-value", "single-value", "series"]), "const_on": rng.choice([1, 2])}
+                "const_as": rng.choice(["single-value", "single-value", "series"]), "const_on": rng.choice([1, 2]),
+                "tie_left_open": rng.random() < 0.4}
 
     # ------------------------------------------------------------------------------------------
     def run(self, case):
@@ -198,6 +199,8 @@ class P(Prop):
             byname[a].power_input = cst
             byname[b].power_input = ser
             sysm.set_time_interval(np.ones(n), IntegrationMethod.sum_with_time)
+            if case.get("tie_left_open"):      # an earlier split-bus study on the same plant object left the tie open (same series length)
+                sysm.set_bus_tie_status_all(np.zeros((n, 1)))
             srcs = list(sysm.power_sources)
             table = PmsLoadTable(min_load2on_pattern=min_load_table_dict([float(s.rated_power) for s in srcs], float(case["f"])))
             with np.errstate(all="ignore"):
@@ -219,6 +222,8 @@ class P(Prop):
                 if d["cls"] == "genset":
                     o.load_sharing_mode = np.zeros(n)
             sysm.set_time_interval(np.ones(n), IntegrationMethod.sum_with_time)
+            if case.get("tie_left_open") and case["plant"]["breakers"]:
+                sysm.set_bus_tie_status_all(np.zeros((n, 1)))
             pms = EqualEngineSizeAllClosedSimulationInterface(swb2n_gensets={s_ + 1: k for s_, k in enumerate(case["per"])},
                                                               rated_power_gensets=float(case["r"]), n_bus_ties=len(case["plant"]["breakers"]),
                                                               maximum_allowable_genset_load_percentage=float(case["f"]))
@@ -349,6 +354,8 @@ class P(Prop):
                 t.append("negative-load")
             if len(set(case["rs"])) < len(case["rs"]):
                 t.append("equal-ratings-present")
+        if case.get("tie_left_open"):
+            t.append("bus-tie-left-open-by-an-earlier-study-on-the-same-object")
         if case["stream"] == "sim":
             t.append("constant-load-given-as-" + case["const_as"])
         if case["stream"] == "equal_sim":
